@@ -163,6 +163,16 @@ class SetWrapper(typing.MutableSet[T]):
             for v in arg:
                 self.add(v)
 
+    @classmethod
+    def _from_iterable(  # type: ignore[override]
+        cls, it: typing.Iterable[T]
+    ) -> typing.Set[T]:
+        # The set operators inherited from the ABC mixins (&, -, ^, their
+        # reflected forms and &=) build their result through this hook.
+        # Subclasses take a parent node as first constructor argument, so the
+        # default cls(it) cannot be used; like __or__, return a plain set.
+        return set(it)
+
     # begin functions for ABC
     def __contains__(self, v: object) -> bool:
         return v in self._data
